@@ -32,7 +32,7 @@ func init() {
 			k := k
 			out = append(out, &vexplore.Scenario{Name: fmt.Sprintf("%s-hist-D%d", k.n, d), Mode: "hist", Reset: kit.ResetGlobals,
 				Body:         func() { hist(k.c, d) },
-				NeedCounters: []string{"reply-routed", "reply-to-gone-pipe", "send-protostate", "malformed-dropped", "ctx-own-request"}})
+				NeedCounters: []string{"reply-routed", "reply-to-gone-pipe", "send-protostate", "malformed-dropped", "ctx-own-request", "context-opened-mid-history"}})
 			out = append(out, &vexplore.Scenario{Name: k.n + "-sched-two-ctx", Mode: "sched", Bound: b, Reset: kit.ResetGlobals,
 				Body: func() { schedTwoCtx(k.c) }})
 		}
@@ -88,6 +88,7 @@ type world struct {
 	ctxs   []*mctx
 	seq    uint32
 	nreply int
+	lateCtx bool
 }
 
 func setup(c ctor, nctx int) *world {
@@ -185,6 +186,16 @@ func (w *world) events() []kit.Event {
 		evs = append(evs, kit.Event{Name: "malformed-noid:p1", Run: func() {
 			w.pipes[1].Deliver([]byte{0x00, 0x00, 0x00, 0x01, 0x7f, 0xff, 0xff, 0xff, 'x', 'y'})
 			kit.Count("malformed-dropped")
+		}})
+	}
+	if w.lateCtx && len(w.ctxs) < 2 {
+		evs = append(evs, kit.Event{Name: "open-context", Run: func() {
+			cx, err := w.sock.OpenContext()
+			if err != nil {
+				kit.Failf("open-context", "OpenContext: %s", kit.ErrName(err))
+			}
+			w.ctxs = append(w.ctxs, &mctx{name: fmt.Sprintf("ctx%d", len(w.ctxs)), c: cx, s: w.sock})
+			kit.Count("context-opened-mid-history")
 		}})
 	}
 	for _, m := range w.ctxs {
@@ -346,7 +357,11 @@ func (w *world) settle() {
 }
 
 func hist(c ctor, depth int) {
-	w := setup(c, 2)
+	// either both contexts exist from the start, or the second one is opened by an event of the
+	// history (it must start with no request of its own, whatever the socket holds at that time)
+	n := 2 - kit.ChooseFree(2)
+	w := setup(c, n)
+	w.lateCtx = n == 1
 	kit.Hist(depth, w.events, w.settle)
 	kit.Must("Socket.Close", func() { _ = w.sock.Close() })
 }
